@@ -17,7 +17,7 @@ from xv.rt import fin, pick
 
 SHARD: dict = {}
 
-RUN_PY = Path("/repo/src/experimaestro/run.py")
+RUN_PY = rt.REPO / "src/experimaestro/run.py"
 
 INFO = {
     "functions": ["run.py:TaskRunner.__init__", "run.py:TaskRunner.run", "run.py:TaskRunner.cleanup", "run.py:TaskRunner.handle_error", "run.py:rmfile", "scriptbuilder.py:PythonScriptBuilder.write (concrete: lock file listed)"],
@@ -383,9 +383,9 @@ def source_checksum() -> bool:
         import inspect
 
         ok = inspect.getsource(R) == RUN_PY.read_text()
-        src = Path("/repo/src/experimaestro/scriptbuilder.py").read_text()
+        src = (rt.REPO / "src/experimaestro/scriptbuilder.py").read_text()
         ok = ok and "for path in self.lockfiles" in src and "TaskRunner(" in src
-        src2 = Path("/repo/src/experimaestro/commandline.py").read_text()
+        src2 = (rt.REPO / "src/experimaestro/commandline.py").read_text()
         ok = ok and "scriptbuilder.lockfiles.append(self.lockpath)" in src2
     return fin(ok)
 
